@@ -212,7 +212,20 @@ func (x *Exec) applyContract(fc *FuncContract, callee *ssa.Function, args []Term
 	post.cur = st
 	post.old = pre
 	for _, c := range fc.Ensures {
-		x.vc.assume(implies(pc, x.evalClause(&post, c)), "postcondition of "+fc.Name)
+		// a postcondition that mentions the callee's local variables cannot be expressed at the call site:
+		// it is simply not assumed there (fewer assumptions, still sound)
+		func() {
+			defer func() {
+				if r := recover(); r != nil {
+					if _, ok := r.(specError); ok {
+						return
+					}
+					panic(r)
+				}
+			}()
+			t := x.evalClause(&post, c)
+			x.vc.assume(implies(pc, t), "postcondition of "+fc.Name)
+		}()
 	}
 	return results
 }
